@@ -856,7 +856,9 @@ class CompiledSimulation(object):
         for x, net in enumerate(regnets):
             rout = net.dests[0]
             for n in range(self._limbs(rout)):
-                write('{vn}[{n}] = regtmp{x}[{n}];'.format(vn=self.varname[rout], x=x, n=n))
+                write('{vn}[{n}] = regtmp{x}[{n}]{mask};'.format(
+                    vn=self.varname[rout], x=x, n=n,
+                    mask=self._makemask(rout, net.args[0].bitwidth, n)))
 
         # output copied out
         outputs = list(self.block.wirevector_subset(Output))
